@@ -203,10 +203,61 @@ pub fn programs() -> Vec<Program> {
     v
 }
 
+/// Sequential histories: Q in every quiescent state reachable over a write / clock / sweep alphabet (re-puts of
+/// expired-but-unswept keys, deletes, weight and TTL upserts, evictions under W = 6).
+fn seq_spec(ctx: &Ctx, shards: usize) -> crate::harness::seq::SeqSpec {
+    use crate::harness::seq::{Finding as SF, SeqRun, SeqSpec};
+    use crate::props::common::{adv, del};
+    let ups = |k: K, value: bool, w: Option<i64>, ttl: Option<u64>, rm: bool| Op::Upsert { k, value, w, ttl_ms: ttl, remove_ttl: rm };
+    SeqSpec {
+        name: format!("seq/accounting-at-every-quiescent-state/shards{}", shards),
+        setup: Setup { weight: 6, shards, buffer: 64, ..Setup::default() },
+        world: Default::default(),
+        prefix: vec![],
+        alphabet: vec![
+            put(1, 2),
+            put_ttl(1, 3, 1000),
+            put(2, 2),
+            put_ttl(2, 1, 1500),
+            put(3, 4),
+            del(1),
+            del(2),
+            ups(1, true, Some(4), None, false),
+            ups(1, true, Some(1), Some(2000), false),
+            ups(2, true, Some(2), None, true),
+            adv(2000),
+            Op::TickWait,
+        ],
+        depth: if ctx.quick() { 7 } else { 9 },
+        allow: None,
+        oracle: Arc::new(|run: &SeqRun, out: &mut Vec<SF>| {
+            for f in accounting_violations(run.after()) {
+                let kind = if f.starts_with("weight_used") {
+                    "sum-mismatch"
+                } else if f.contains("is charged but the store holds") {
+                    "two-ids-one-key"
+                } else if f.contains("is charged but the store does not hold") {
+                    "charged-but-absent"
+                } else if f.contains("no weight is charged") {
+                    "held-but-uncharged"
+                } else {
+                    "id-confusion"
+                };
+                out.push(SF::new("accounting-at-quiescence", format!("acct:seq:{}", kind), format!("after {}: {}", run.calls[run.last()].op.short(), f)));
+            }
+        }),
+        keys: vec![1, 2, 3],
+        canon_sketch: false,
+        ghost_key: None,
+        max_states: 2_000_000,
+        time_cap_s: if ctx.quick() { 12.0 } else { 600.0 },
+    }
+}
+
 pub fn def(ctx: &Ctx) -> PropertyDef {
     let quick = ctx.quick();
     let workers = ctx.workers;
-    let scenarios: Vec<Scenario> = for_tier(programs(), quick)
+    let mut scenarios: Vec<Scenario> = for_tier(programs(), quick)
         .into_iter()
         .map(|p| {
             {
@@ -215,10 +266,14 @@ pub fn def(ctx: &Ctx) -> PropertyDef {
             }
         })
         .collect();
+    for shards in [2usize, 4] {
+        let name = seq_spec(ctx, shards).name;
+        scenarios.push(crate::harness::seq::seq_scenario(move |c| seq_spec(c, shards), &name));
+    }
     PropertyDef {
         id: "C05",
-        technique: "stateless model checking of the real code: preemption-bounded exhaustive DFS over the interleavings of 1-2 client threads with the command worker and the sweeper (shuttle runtime, own scheduler); invariant Q evaluated from state snapshots at quiescence",
-        rule: "ilv: every schedule of each listed program up to the preemption bound; distinct_nontrivial = distinct call/return histories in which calls of different threads, or a call and a background step, overlapped",
+        technique: "explicit-state breadth-first search over operation sequences (invariant Q in every quiescent state), plus stateless model checking of the real code: preemption-bounded exhaustive DFS over the interleavings of 1-2 client threads with the command worker and the sweeper (shuttle runtime, own scheduler); invariant Q evaluated from state snapshots at quiescence",
+        rule: "seq: all histories over the alphabet up to the depth, canonical-state deduplication; ilv: every schedule of each listed program up to the preemption bound; distinct_nontrivial = distinct call/return histories in which calls of different threads, or a call and a background step, overlapped",
         assumptions: COMMON_ASSUMPTIONS.to_vec(),
         scenarios,
     }
